@@ -75,7 +75,7 @@ func c17CfgText(r c17Run, dev string, emit bool, invs, props []string) string {
 
 var (
 	c17Invs  = []string{"Confined", "ExecAbsent", "NoLoadSave"}
-	c17Props = []string{"NameOnly", "RejectNoEffect"}
+	c17Props = []string{"NameOnly", "RejectNoEffect", "FailNoEffect"}
 )
 
 type c17HStep struct {
@@ -123,6 +123,7 @@ func c17QPaths(list [][][]int) []string {
 func c17Header(emitted string) (*c17Hdr, error) {
 	h := &c17Hdr{}
 	trees := map[int][]string{}
+	dirs := map[int][]string{}
 	err := ReadLines(emitted, func(line []byte) error {
 		if !strings.HasPrefix(string(line), `{"init"`) {
 			return nil
@@ -131,20 +132,24 @@ func c17Header(emitted string) (*c17Hdr, error) {
 		if err := json.Unmarshal(line, &g); err != nil {
 			return err
 		}
-		h.Dirs = c17QPaths(g.Dirs)
+		if *g.Init != 2 || len(h.Dirs) == 0 {
+			h.Dirs = c17QPaths(g.Dirs)
+		}
 		h.Cwd = c17Q(c17PathOf(g.Cwd))
 		trees[*g.Init] = c17QPaths(g.Files)
+		dirs[*g.Init] = c17QPaths(g.Dirs)
 		return nil
 	})
 	if err != nil {
 		return nil, err
 	}
-	for t := 0; t < 2; t++ {
+	for t := 0; t < 3; t++ {
 		tr, ok := trees[t]
 		if !ok { // a tree the run did not use: keep the index space
 			tr = []string{}
 		}
 		h.Trees = append(h.Trees, tr)
+		h.TreeDirs = append(h.TreeDirs, dirs[t])
 	}
 	if len(h.Dirs) == 0 || h.Cwd == "" {
 		return nil, fmt.Errorf("the model emitted no initial tree")
@@ -206,6 +211,10 @@ func c17BuildCase(id int, g *c17Gen, cwd string) c17Case {
 			}
 		}
 		switch {
+		case g.T == 2:
+			// fault tree: accepted names whose target is a directory.  Asked twice: a request that fails in the
+			// operating system must leave nothing behind, however often it is made.
+			cs.Steps = append(mks, st, st)
 		case g.T == 0 && g.O == "save":
 			cs.Steps = []c17Step{st}
 		case g.T == 0: // load: target absent, then present
@@ -218,7 +227,7 @@ func c17BuildCase(id int, g *c17Gen, cwd string) c17Case {
 		}
 	case "image":
 		cs.Steps = []c17Step{st}
-		if g.T == 1 {
+		if g.T >= 1 {
 			cs.Steps = append(cs.Steps, st)
 		}
 	default:
@@ -400,7 +409,7 @@ func (j *c17Judge) judge(as string, g *c17Gen, cs *c17Case, res *c17Res) []c17Fa
 				j.accepted[st.O]++
 			}
 			key := fmt.Sprintf("%s|%d|%s", st.O, st.G, name)
-			if st.O == "save" {
+			if st.O == "save" && cs.T != 2 { // (in the fault tree errors come from the operating system by construction)
 				// an error from save() means "refused": the directories of the tree never change and the target
 				// of an accepted name is a plain file or absent.  Both outcomes for one name = state-dependent.
 				if d, ok := j.dec[key]; !ok {
@@ -783,12 +792,13 @@ func checkC17(c *Ctx) {
 		{"ExistingBypass", nil, []string{"NameOnly"}, "NameOnly"},
 		{"CreateBeforeCheck", nil, []string{"RejectNoEffect"}, "RejectNoEffect"},
 		{"ExecWhenRestricted", []string{"ExecAbsent"}, nil, "ExecAbsent"},
+		{"TempLeftOnFailure", nil, []string{"FailNoEffect"}, "FailNoEffect"},
 	}
 	if !c.Thorough() {
-		devs = []devRun{devs[0], devs[4], devs[5], devs[6]}
+		devs = []devRun{devs[0], devs[4], devs[5], devs[6], devs[7]}
 	}
-	small := c17Run{configs: []string{"restricted", "emptyonly", "disabled", "unrestricted", "unres_empty"}, trees: []int{0, 1},
-		alphabet: "Alphabet10", extra: "Pinned", maxLen: 2, maxOps: 2, shards: 1, workers: 2}
+	small := c17Run{configs: []string{"restricted", "emptyonly", "disabled", "unrestricted", "unres_empty"}, trees: []int{0, 1, 2},
+		alphabet: "Alphabet10", extra: "AllPinned", maxLen: 2, maxOps: 2, shards: 1, workers: 2}
 	var wg sync.WaitGroup
 	var mu sync.Mutex
 	devOut := map[string]string{}
@@ -870,7 +880,7 @@ func checkC17(c *Ctx) {
 		gw.Add(1)
 		go func(p plan) {
 			defer gw.Done()
-			run := c17Run{configs: []string{p.cfg}, trees: []int{0, 1}, alphabet: "Alphabet10", extra: "Pinned",
+			run := c17Run{configs: []string{p.cfg}, trees: []int{0, 1, 2}, alphabet: "Alphabet10", extra: "AllPinned",
 				maxLen: p.maxLen, maxOps: 1, shards: p.shards, workers: p.tlcW}
 			r, err := c.TLC(TLCOpt{Spec: "RestrictIO_MC", Cfg: c17CfgText(run, "none", true, c17Invs, c17Props), Workers: p.tlcW, Timeout: 20 * time.Minute})
 			if err != nil {
@@ -915,7 +925,7 @@ func checkC17(c *Ctx) {
 				exhaustive = false
 			}
 			gmu.Unlock()
-			c.Note("GEN %s: names<=%d (%d names plain+suffixed, +pinned) x {save,load} x 2 trees: TLC %d transitions / %d states in %.1fs; %d cases replayed in %d child(ren), %d evaluations, %d tree walks, accepted save=%d load=%d, model_disagreement=%d",
+			c.Note("GEN %s: names<=%d (%d names plain+suffixed, +pinned) x {save,load} x 2 trees + pinned names in the fault tree: TLC %d transitions / %d states in %.1fs; %d cases replayed in %d child(ren), %d evaluations, %d tree walks, accepted save=%d load=%d, model_disagreement=%d",
 				p.cfg, p.maxLen, want, r.Generated, r.Distinct, r.Wall.Seconds(), n, p.kids, j.asks, j.walked, j.accepted["save"], j.accepted["load"], j.disagree)
 			for _, ex := range j.disagreeEx {
 				c.Note("model_disagreement %s", ex)
@@ -1227,6 +1237,7 @@ func replayC17(rp map[string]any) (bool, string) {
 		Cases  []c17Case `json:"cases"`
 		Chroot bool      `json:"chroot"`
 		Binary bool      `json:"binary"`
+		Auto   bool      `json:"auto"`
 		Strace bool      `json:"strace"`
 	}
 	b, _ := json.Marshal(rp)
@@ -1253,7 +1264,17 @@ func replayC17(rp map[string]any) (bool, string) {
 	var res []c17Res
 	switch {
 	case in.Binary:
-		res, err = c17BinaryCases(dir, in.Config, in.Hdr, cases, in.Chroot && c17CanChroot(), "")
+		res, err = c17BinaryCases(dir, in.Config, in.Hdr, cases, in.Chroot && c17CanChroot(), "", in.Auto)
+		if err == nil && in.Auto {
+			var msgs []string
+			for i := range cases {
+				fails, _ := c17JudgeAuto(in.Config, cwd, &cases[i], &res[i])
+				for _, f := range fails {
+					msgs = append(msgs, f.Sig+": "+f.What)
+				}
+			}
+			return len(msgs) == 0, strings.Join(msgs, "; ")
+		}
 	case in.Strace:
 		var bad []string
 		bad, err = c17StraceCases(dir, in.Config, in.Hdr, cases, in.Chroot && c17CanChroot())
